@@ -48,7 +48,7 @@ if res["confirmed"]:
     try:
         for p in [prop] + extra:
             t0 = time.time()
-            rc, out = run("./vcheck run %s --tier %s" % (p, tier), cwd="/verif", timeout=7200, e=dict(env, VERIF_REPO=wt))
+            rc, out = run("./vcheck run %s --tier %s" % (p, tier), cwd="/verif", timeout=7200, e=dict(env, VERIF_REPO=wt, VERIF_EVIDENCE_DIR=wt+"/.verif-evidence", VERIF_REPLAY_DIR=wt+"/.verif-replays"))
             viol = [l for l in out.splitlines() if l.startswith("VIOLATION")]
             det = [l.strip() for l in out.splitlines() if l.strip().startswith("[") and "]" in l and not l.startswith("[C")][:3]
             checks[p] = {"exit": rc, "violations": len(viol), "detected": rc == 1 and len(viol) > 0, "what": det, "wall_s": round(time.time() - t0, 1)}
